@@ -162,8 +162,11 @@ class Sandbox:
 
 class Interp:
     """Runs one case against file_builder; collects one observation per step."""
-    def __init__(self, case, workdir, hooks=None):
+    def __init__(self, case, workdir, hooks=None, par_mode="seq", sched=None):
         self.case = case
+        self.par_mode = par_mode      # "seq": blocks one after another (the sequential reference);
+        self.sched = sched            # "sched": under the deterministic scheduler; "free": real threads
+        self.next_tid = 1
         self.sb = Sandbox(workdir)
         self.log = []
         self.hooks = hooks or {}
@@ -313,6 +316,7 @@ class Interp:
                         self.stats["cached_calls"] += 1
                         if self.cur is not None:
                             self.cur["hits"] += 1
+                            self.cur["hit_names"].append(fname)
                     if self.cur is not None:
                         tp = self.sb.abs(path)
                         if not os.path.isfile(tp):
@@ -336,6 +340,7 @@ class Interp:
                         self.stats["cached_calls"] += 1
                         if self.cur is not None:
                             self.cur["hits"] += 1
+                            self.cur["hit_names"].append(fname)
                 except Exception as e:       # noqa
                     env[x] = Out(exc=e)
             elif k == "write":
@@ -359,9 +364,50 @@ class Interp:
                 returned, v = self.stmts(branch, builder, target, args, kwargs, dict(env))
                 if returned:
                     return True, v
+            elif k == "par":
+                env[s[2]] = self.par(s[1], builder, target, args, kwargs, env)
             else:
                 raise ValueError(s)
         return False, None
+
+    def par(self, blocks, builder, target, args, kwargs, env):
+        """Run the blocks on the same builder in several threads and join them."""
+        import threading
+        results = [None] * len(blocks)
+
+        def mk(i, blk):
+            def run():
+                try:
+                    returned, v = self.stmts(blk, builder, target, args, kwargs, dict(env))
+                    results[i] = Out(val=v if returned else None)
+                except Exception as e:       # noqa
+                    results[i] = Out(exc=e)
+            return run
+        runs = [mk(i, b) for i, b in enumerate(blocks)]
+        if self.par_mode == "seq":
+            for r in runs:
+                r()
+        elif self.par_mode == "sched":
+            tids = []
+            ths = []
+            for r in runs:
+                tid = self.next_tid
+                self.next_tid += 1
+                tids.append(tid)
+                ths.append(self.sched.spawn(r, tid))
+            self.sched.join(tids)
+            for th in ths:
+                th.join(timeout=30)
+            for i, tid in enumerate(tids):
+                if results[i] is None:
+                    results[i] = Out(exc=self.sched.errors.get(tid, RuntimeError("thread did not finish")))
+        else:
+            ths = [threading.Thread(target=r) for r in runs]
+            for th in ths:
+                th.start()
+            for th in ths:
+                th.join(timeout=60)
+        return Out(val=[r.show() if r is not None else "unfinished" for r in results])
 
     # -- history
     def fsop(self, op):
@@ -423,7 +469,7 @@ class Interp:
             for step in self.case["history"]:
                 self.log = []
                 self.cur = {"kind": step[0], "targets": [], "entry_violations": [], "hits": 0, "misses": 0,
-                            "raised_ids": [], "failed_targets": [], "exc_same": None}
+                            "raised_ids": [], "failed_targets": [], "exc_same": None, "hit_names": []}
                 self.cur.update(read_cache_info(self.cachefile, self.sb))
                 self.meta.append(self.cur)
                 if step[0] == "mutate":
